@@ -374,6 +374,12 @@ func (h *Handler) HandleWriteFile(ctx *Context, data io.Reader) (int32, error) {
 		return 0, fmt.Errorf("file for writing was not opened")
 	}
 
+	// amount of written bytes is reported as signed 32-bit: bigger request can't be answered truthfully
+	if lr, ok := data.(*io.LimitedReader); ok && lr.N > math.MaxInt32 {
+		slog.WarnContext(ctx, "Too much data for one write request", slog.Int64("bytes", lr.N))
+		return 0, fmt.Errorf("too much data for one write request: %d", lr.N)
+	}
+
 	written, err := h.Copier.Copy(ctx.State.WOFile, data)
 	if err != nil {
 		slog.WarnContext(ctx, "Write data failed", logutil.ErrorAttr(err))
